@@ -57,6 +57,22 @@ def run(ctx) -> None:
     # what teardown does is C01 (the crash-of-a-service-task case cancels the root scope: the loop must survive BaseException)
     include_rules(ctx, "c01", "C15.R1", only=("C01.R1", "C01.R2", "C01.R3", "C01.R5", "C01.R6", "C01.R7"))
     include_rules(ctx, "c08", "C15.R1", only=("C08.R2", "C08.R3"))
+    # a clean ending stays clean only if child contexts (service tasks' own contexts) are
+    # unlinked on every exit route: otherwise the root reports "stack corruption"
+    include_rules(ctx, "c13", "C15.R1", only=("C13.R4",))
+
+    # "timing out during startup": the caller's start timeout is the one start_component gets
+    if sc_await:
+        scall = sc_await[0].value
+        tkw = [k.value for k in scall.keywords if k.arg == "timeout"] + (list(scall.args[2:3]) if len(scall.args) >= 3 else [])
+        t_param = tkw[0].id if tkw and isinstance(tkw[0], ast.Name) and tkw[0].id in R.params else None
+        ok_t = t_param is not None
+        if ok_t:
+            # ... and run_application hands its own parameter to that position
+            idx = R.params.index(t_param)
+            pos = anyio_call.args[1:] if anyio_call is not None else []
+            ok_t = idx < len(pos) and isinstance(pos[idx], ast.Name) and pos[idx].id in RA.params
+        rep.check("C15.R2", ok_t, R, scall, "run_application's start timeout reaches start_component(timeout=...)", "the start timeout given to run_application is not the one start_component is called with: a stalling startup is not ended after the requested time (the default applies, or none)")
 
     # ------------------------------------------------------------------ R2 exit-code table
     matched = set()
@@ -128,6 +144,10 @@ def run(ctx) -> None:
                     v = r.ast.value
                     if want == "X":
                         okv = v is not None and rrd.text(r.id, v) == X
+                    elif want == 0:
+                        # run_application converts by truthiness (C15.R3): None and 0 both mean
+                        # "return normally"
+                        okv = v is None or is_const(v, 0) or is_const(v, None)
                     else:
                         okv = v is not None and is_const(v, want)
                     warned = bool(warn_nodes) and cfg.all_paths_pass(rn.id, [r.id], warn_nodes, edge_ok=normal)
@@ -150,7 +170,7 @@ def run(ctx) -> None:
         wn = [n for n in cfg.live_nodes() if cfg.own_ast(n) is not None and any(x is wait_await[0] for x in iter_own(cfg.own_ast(n)))][0]
         after = cfg.reach([wn.id], edge_ok=normal)
         wr = [cfg.nodes[i] for i in after if cfg.nodes[i].kind == "stmt" and isinstance(cfg.nodes[i].ast, ast.Return)]
-        rep.check("C15.R2", len(wr) == 1 and is_const(wr[0].ast.value, 0), R, wait_await[0], "row 'non-CLI: shutdown event set' -> 0", "a termination signal after startup of a non-CLI application does not give status 0")
+        rep.check("C15.R2", len(wr) == 1 and (wr[0].ast.value is None or is_const(wr[0].ast.value, 0) or is_const(wr[0].ast.value, None)), R, wait_await[0], "row 'non-CLI: shutdown event set' -> 0", "a termination signal after startup of a non-CLI application does not give status 0")
         rep.check("C15.R2", not a.covering_handlers(R, wait_await[0]), R, wait_await[0], "a crash while waiting propagates (no handler)", "exceptions while waiting for shutdown are caught")
         matched.add("non-cli-signal")
     # no handler in the outer structure swallows
@@ -162,7 +182,7 @@ def run(ctx) -> None:
     # every literal return is 0 or 1 or the validated code
     for r in rets:
         v = r.ast.value
-        ok = v is None or is_const(v, 0) or is_const(v, 1) or isinstance(v, ast.Name)
+        ok = v is None or is_const(v, 0) or is_const(v, None) or is_const(v, 1) or isinstance(v, ast.Name)
         rep.check("C15.R2", ok, R, r.ast, "status value in the documented set", f"undocumented status `{ast.unparse(v)}`")
     rep.exhaustive = True
 
